@@ -56,7 +56,7 @@ def gen_consts():
 def v_files():
     fs = []
     for d in SUBDIRS:
-        fs += sorted(glob.glob(os.path.join(COQ, d, "*.v")))
+        fs += sorted(f for f in glob.glob(os.path.join(COQ, d, "*.v")) if not f.endswith("_wip.v"))
     return [os.path.relpath(f, COQ) for f in fs]
 
 
